@@ -430,6 +430,21 @@ def _check_case_inner(case, sess, d, cfg, lo, hi):
                 nxt["store"] = WStore()
             S.load_latest_snapshot(ctx, nxt)
             cur = nxt
+        # the loaded state snapshotted once more under the NEXT version (the caller's argument is the version of the file, as
+        # Apply hands it over after bumping; the loaded state still carries the old one)
+        try:
+            nv = str(case["version"]) + "-next"
+            p4 = S.write_snapshot(ctx, cur, nv, applied=0, deltas=[])
+            b4 = json.loads(open(p4, "rb").read())
+            nxt2 = {"version_etag": None}
+            if case["has_store"]:
+                nxt2["store"] = WStore()
+            S.load_latest_snapshot(ctx, nxt2)
+            sess.count("loaded_states_resnapshotted_under_the_next_version")
+            if b4.get("version_etag") != nv or nxt2.get("version_etag") != nv:
+                sess.violation("resnapshot-keeps-the-old-version", case, {"written_as": nv, "body": b4.get("version_etag"), "loaded": nxt2.get("version_etag")})
+        except Exception as ex:
+            sess.violation("rewrite-raises:" + type(ex).__name__, case, repr(ex)[:200])
         # only decoys left -> discovery must not invent a snapshot
         for n in os.listdir(d):
             if n.endswith(".json"):
@@ -493,6 +508,7 @@ def main(tier: str, seed: int):
     sess.require("snapshots_written", 300)
     sess.require("snapshots_loaded", 300)
     sess.require("rewrites_compared", 500)
+    sess.require("loaded_states_resnapshotted_under_the_next_version", 100)
     sess.require("rewrites_through_a_long_lived_ctx_after_a_bounds_change", 100)
     sess.require("cases_with_sanitised_edges", 100)
     sess.require("discovery_calls", 300)
